@@ -100,6 +100,45 @@ impl Method for FixedMethod {
             Suggestion::empty()
         }
     }
+
+    #[cfg(riti_verif)]
+    fn verif_get_state(&self) -> String {
+        serde_json::json!({
+            "method": "fixed",
+            "buffer": self.buffer,
+            "typed": self.typed,
+            "pending": match self.pending_kar {
+                None => serde_json::Value::Null,
+                Some(PendingKar::I) => "I".into(),
+                Some(PendingKar::E) => "E".into(),
+                Some(PendingKar::OI) => "OI".into(),
+            },
+            "suggestions": self.suggestions.iter().map(|r| r.verif_to_json()).collect::<Vec<_>>(),
+        })
+        .to_string()
+    }
+
+    #[cfg(riti_verif)]
+    fn verif_set_state(&mut self, state: &str) {
+        let v: serde_json::Value = serde_json::from_str(state).unwrap();
+        if let Some(s) = v["buffer"].as_str() {
+            self.buffer = s.to_string();
+        }
+        if let Some(s) = v["typed"].as_str() {
+            self.typed = s.to_string();
+        }
+        if v.get("pending").is_some() {
+            self.pending_kar = match v["pending"].as_str() {
+                Some("I") => Some(PendingKar::I),
+                Some("E") => Some(PendingKar::E),
+                Some("OI") => Some(PendingKar::OI),
+                _ => None,
+            };
+        }
+        if let Some(list) = v["suggestions"].as_array() {
+            self.suggestions = list.iter().map(Rank::verif_from_json).collect();
+        }
+    }
 }
 
 impl FixedMethod {
